@@ -13,6 +13,7 @@ in Model.LedgerCore.  The full statement is kept as `BlockConservesStatement`; t
 (sum over all accounts after every group, `AccountTotals.All()` at the end of every block, sum at the start of the next block).
 -/
 import AlgoVerif.Lemmas.LedgerCoreGroup
+import AlgoVerif.Props.C45
 namespace Props.C18
 open AlgoVerif.Model.LedgerCore AlgoVerif.Lemmas.LedgerCore
 
@@ -84,6 +85,25 @@ def BlockConservesStatement : Prop :=
 /-- pending rewards are counted: an account with pending rewards that pays has them credited, the total is unchanged -/
 theorem money_counts_pending (P : Params) (a a' : Account) (h : withRewards P a = .ok a') : a'.bal = balWP P a ∧ balWP P a' = balWP P a :=
   ⟨(withRewards_ok h).1, balWP_withRewards h⟩
+
+/-! ### tie of the model's checked arithmetic to the source (T): `Move` debits with `OSubA` and credits with `OAddA`; the model
+tests `fromNew.bal < amt` / `2^64 ≤ toNew.bal + amt` and uses exact `Nat` results — exactly what the regenerated helpers do on
+in-range operands (Props.C45). -/
+
+theorem move_debit_tie (a b : Nat) (ha : a < 2^64) (hb : b < 2^64) :
+    Gen.Basics.OSubA a b = (if b ≤ a then a - b else a + 2^64 - b, decide (a < b)) := by
+  unfold Gen.Basics.OSubA
+  simp only
+  rw [Props.C45.osub_exact 64 a b ha hb]
+
+theorem move_credit_tie (a b : Nat) (ha : a < 2^64) (hb : b < 2^64) :
+    Gen.Basics.OAddA a b = ((a + b) % 2^64, decide (M64 ≤ a + b)) := by
+  unfold Gen.Basics.OAddA
+  simp only
+  rw [Props.C45.oadd_exact 64 a b ha hb]
+  rfl
+
+example : Gen.Basics.OSubA 5 7 = (18446744073709551614, true) := by decide
 
 /-! ### non-vacuity: a block of two groups (one fails) at a non-zero rewards level, universe {0,1,2,7} (0 = the zero address, named by absent receivers / close-to) -/
 
